@@ -90,8 +90,27 @@ fn expiring_group() -> BoxedStrategy<Vec<Op>> {
         .boxed()
 }
 
+/// A client served through one key of a multi-key wait while another client is ahead of it on
+/// its other key; it then waits somewhere else, and the other key receives two elements: one for
+/// the client that is really waiting there, one that must stay in the list.
+fn served_elsewhere_group() -> BoxedStrategy<Vec<Op>> {
+    (0..3usize, any::<bool>(), 0..NCLIENTS, 1..3usize).prop_map(|(ka, right, first, n_extra)| {
+        let (kb, kc) = ((ka + 1) % 3, (ka + 2) % 3);
+        let c = |i: usize| (first + i) % NCLIENTS;
+        vec![
+            Op::Block { c: c(0), right, keys: vec![kb], timeout_ms: 0 },
+            Op::Block { c: c(1), right: !right, keys: vec![ka, kb], timeout_ms: 0 },
+            Op::Push { c: c(2), right: true, key: ka, n: 1, via: 0 },
+            Op::Block { c: c(1), right, keys: vec![kc], timeout_ms: 0 },
+            Op::Push { c: c(2), right: true, key: kb, n: 1 + n_extra, via: 0 },
+            Op::Push { c: c(2), right: false, key: kc, n: 1, via: 0 },
+        ]
+    })
+    .boxed()
+}
+
 fn history(max_len: usize) -> BoxedStrategy<Vec<Op>> {
-    proptest::collection::vec(prop_oneof![12 => op().prop_map(|o| vec![o]), 1 => expiring_group()], 3..=max_len).prop_map(|v| v.into_iter().flatten().collect()).boxed()
+    proptest::collection::vec(prop_oneof![12 => op().prop_map(|o| vec![o]), 1 => expiring_group(), 1 => served_elsewhere_group()], 3..=max_len).prop_map(|v| v.into_iter().flatten().collect()).boxed()
 }
 
 struct Blocked {
@@ -128,6 +147,13 @@ impl Sim {
         for _ in 0..2 {
             match self.ctl.cmd(&["PING"]) {
                 Reply::Frame(Frame::Simple(_)) => {}
+                Reply::Timeout => {
+                    // no answer in 8 s: once more with patience before calling it a hang
+                    match self.ctl.read_reply(Duration::from_secs(20)) {
+                        Reply::Frame(Frame::Simple(_)) => {}
+                        r => return fail("server-unresponsive", format!("the server stopped answering: a PING on the control connection had no reply for 28 s ({:?})", r)),
+                    }
+                }
                 r => return fail("infra", format!("control connection PING -> {:?}", r)),
             }
         }
